@@ -44,7 +44,7 @@ def gen_c12(rng):
     life = rng.choices(["serve", "never-served", "shutdown-inflight", "handle-loop"], [70, 8, 14, 8])[0]
     methods = {"echo": {"kind": "echo"}, "fail": {"kind": "fail"},
                "slow": {"kind": "slow", "d": rng.choice([0.5, 1.0, 2.0])},
-               "ns.echo": {"kind": "echo"}}
+               "ns.echo": {"kind": "echo"}, "quit": {"kind": "exit"}}
     if life == "shutdown-inflight":
         methods["gate"] = {"kind": "gate", "gate": "g"}
     names = sorted(methods) + ["nope"]
